@@ -156,7 +156,13 @@ func cmdRun(args []string) int {
 		if *only != "" && !strings.Contains(hr.Name, *only) {
 			continue
 		}
-		cfg := symgo.Config{Harness: qualify(hr.Name), Params: withSeed(hr.Params, seed), Workers: 16, MaxPaths: hr.MaxPaths, Fuel: hr.Fuel,
+		wall := 20 * time.Minute // per-harness wall budget: a run that exceeds it is reported as truncated (exit 2), never as held
+		if s := os.Getenv("VP_HARNESS_WALL_MIN"); s != "" {
+			if m, err := strconv.Atoi(s); err == nil && m > 0 {
+				wall = time.Duration(m) * time.Minute
+			}
+		}
+		cfg := symgo.Config{Harness: qualify(hr.Name), Params: withSeed(hr.Params, seed), Workers: 16, MaxPaths: hr.MaxPaths, Fuel: hr.Fuel, Deadline: time.Now().Add(wall),
 			CrossCheck: cross, KeepSamples: 6, TimeoutMs: map[bool]int{false: 30000, true: 120000}[*tier == "thorough"]}
 		rep, err := symgo.Explore(P, cfg)
 		if err != nil {
@@ -186,7 +192,7 @@ func cmdRun(args []string) int {
 			}
 		}
 		if !rep.Completed && len(rep.Results) == 0 {
-			inconclusive = append(inconclusive, fmt.Sprintf("harness=%s: exploration truncated (path budget) without a finding", hr.Name))
+			inconclusive = append(inconclusive, fmt.Sprintf("harness=%s: exploration truncated (path or wall-clock budget) without a finding: the stated bound was not exhausted", hr.Name))
 		}
 		for _, r := range rep.Results {
 			switch r.Outcome {
